@@ -48,7 +48,7 @@ Neg(r) == Row([v \in DOMAIN r.co |-> -r.co[v]], -r.c, r.k)
 Lam(h, i) == LET key == ToString(i) IN IF key \in DOMAIN h.lam THEN h.lam[key] ELSE 0
 \* Farkas: nonnegative multipliers over hyp \o BoxRows reproduce mu*target's
 \* coefficients and bound its constant within 0.9*tol
-FarkasOK(hyp, nameSeq, t, h) ==
+FarkasGen(hyp, nameSeq, t, h, exact) ==
   LET rows == hyp \o BoxRows(nameSeq)
       n == Len(rows)
       names == Rng(nameSeq)
@@ -60,7 +60,10 @@ FarkasOK(hyp, nameSeq, t, h) ==
      /\ \A key \in DOMAIN h.lam : \E i \in 1..n : key = ToString(i)
      /\ \A v \in names \cup RowsVars(rows) \cup RowVars(t) :
            PSum(used, LAMBDA i : Lam(h, i) * Coef(rows[i], v)) = h.mu * Coef(t, v)
-     /\ (slackD <= 0 \/ slackD * 100000 <= 9 * h.mu * (t.k + Abs(t.c)))
+     /\ (slackD <= 0 \/ (~exact /\ slackD * 100000 <= 9 * h.mu * (t.k + Abs(t.c))))
+FarkasOK(hyp, nameSeq, t, h) == FarkasGen(hyp, nameSeq, t, h, FALSE)
+\* the same with no tolerance at all: hyp /\ box => t exactly
+FarkasExact(hyp, nameSeq, t, h) == FarkasGen(hyp, nameSeq, t, h, TRUE)
 \* Farkas infeasibility of hyp inside the box
 InfeasOK(hyp, nameSeq, h) ==
   LET rows == hyp \o BoxRows(nameSeq)
@@ -103,6 +106,12 @@ FlatCase(comps, cs, i) ==
   IF i > Len(comps) THEN <<>>
   ELSE (IF cs[i] = 0 THEN comps[i].a \o comps[i].g ELSE <<Neg(comps[i].a[cs[i]])>>)
        \o FlatCase(comps, cs, i + 1)
+\* the same, leaving out component `skip`
+RECURSIVE FlatCaseSkip(_, _, _, _)
+FlatCaseSkip(comps, cs, i, skip) ==
+  IF i > Len(comps) THEN <<>>
+  ELSE (IF i = skip THEN <<>> ELSE IF cs[i] = 0 THEN comps[i].a \o comps[i].g ELSE <<Neg(comps[i].a[cs[i]])>>)
+       \o FlatCaseSkip(comps, cs, i + 1, skip)
 RECURSIVE CaseKeyR(_, _)
 CaseKeyR(cs, i) == IF i > Len(cs) THEN "" ELSE ToString(cs[i]) \o (IF i < Len(cs) THEN "." ELSE "") \o CaseKeyR(cs, i + 1)
 CaseKey(cs, i) == IF Len(cs) = 0 THEN "-" ELSE CaseKeyR(cs, i)
@@ -131,6 +140,12 @@ DecideGuarded(base, comps, nameSeq, t, h, g) ==
             /\ key \in DOMAIN h.cases
             /\ \/ (h.cases[key].kind = "cert" /\ FarkasOK(hyp, nameSeq, t, h.cases[key]))
                \/ (h.cases[key].kind = "infeasible" /\ InfeasOK(hyp, nameSeq, h.cases[key]))
+               \* the case "assumption row j of component i is broken" is empty: the other
+               \* hypotheses of the case imply that row exactly (DESIGN 4, strict cases)
+               \/ (h.cases[key].kind = "empty"
+                   /\ h.cases[key].d \in DOMAIN comps /\ cs[h.cases[key].d] > 0
+                   /\ FarkasExact(base \o FlatCaseSkip(comps, cs, 1, h.cases[key].d), nameSeq,
+                                  comps[h.cases[key].d].a[cs[h.cases[key].d]], h.cases[key]))
        THEN "holds"
   ELSE "open"
 =====================================================================
